@@ -1,9 +1,15 @@
-"""Thorough tier, M1 properties: evaluates a sample of the generated cases INSIDE Coq (vm_compute on the
-Gallina definitions) and compares with what the extracted OCaml driver printed for the same cases.
-This cross-checks extraction + driver glue (s-expression parsing, int <-> Z)."""
+"""Thorough tier: evaluates a sample of the generated cases INSIDE Coq (vm_compute on the Gallina definitions)
+and compares with what the extracted OCaml driver printed for the same cases.
+This cross-checks extraction + driver glue (s-expression parsing, int <-> Z, the loops around the model calls).
+
+Per case kind there is (1) a function giving the Gallina term of type `list Z` that mirrors what driver.ml
+evaluates for the case (serialisers: coq/Model/Ser.v for M1, coq/Model/Ser2.v for M3-M6) and (2) a function
+turning the driver's printed observation into the same integer list.  Case kinds without an entry are skipped.
+The cases handed in are the ones that were SENT TO THE DRIVER (after the property module's model_case)."""
 import os
 import re
 import subprocess
+from fractions import Fraction
 import sx
 
 HERE = os.path.dirname(os.path.abspath(__file__))
@@ -77,35 +83,533 @@ def ser_obs(o):
     return [1] + ser_tree(v)
 
 
-def crosscheck(cases, model_outputs, limit=300):
-    """returns dict(checked, mismatches[list of (case line, coq, driver)])"""
+# --------------------------------------------------------------------------- M3 - M6 (serialisers: coq/Model/Ser2.v)
+class Skip(Exception):
+    """the case has a shape the driver would reject or that is not covered here"""
+
+
+def need(cond):
+    if not cond:
+        raise Skip()
+
+
+def b01(x):
+    """driver `bi`"""
+    need(not isinstance(x, list))
+    return "true" if x in ("1", "true") else "false"
+
+
+def nat(x, bound=1000):
+    """driver `ni` (negative numbers become 0); only small numerals are written as nat literals"""
+    need(not isinstance(x, list))
+    n = max(int(x), 0)
+    need(n < bound)
+    return f"{n}%nat"
+
+
+def lst(items):
+    return "[" + "; ".join(items) + "]"
+
+
+def zs(xs):
+    need(all(not isinstance(x, list) for x in xs))
+    return lst(z(x) for x in xs)
+
+
+def qq(x):
+    """driver `qq`: (q num den), den > 0"""
+    need(isinstance(x, list) and len(x) == 3 and x[0] == "q" and int(x[2]) > 0)
+    return f"(Qmake {z(x[1])} {int(x[2])}%positive)"
+
+
+def pairs(x):
+    need(isinstance(x, list) and all(isinstance(p, list) and len(p) == 2 for p in x))
+    return lst(f"({z(a)}, {z(b)})" for a, b in x)
+
+
+# ---- M4
+def tempo_e(x):
+    need(isinstance(x, list) and x and all(isinstance(p, list) and len(p) == 3 for p in x[1:]))
+    return f"(mkTempoE {z(x[0])} {lst(f'({z(p[0])}, {z(p[1])}, {z(p[2])})' for p in x[1:])})"
+
+
+def ev_e(x):
+    need(isinstance(x, list) and x)
+    if x[0] == "L" and len(x) == 5 and isinstance(x[4], list):
+        return f"(ELeaf (mkLeafE {z(x[1])} {z(x[2])} {tempo_e(x[3])} {pairs(x[4])}))"
+    if x[0] in ("S", "P") and len(x) >= 3:
+        return f"(ECont {'KSeqE' if x[0] == 'S' else 'KSimE'} {z(x[1])} {tempo_e(x[2])} {lst(ev_e(k) for k in x[3:])})"
+    need(x[0] == "N" and len(x) == 2)
+    return f"(ENonEvent {z(x[1])})"
+
+
+def t_eq(c):
+    need(len(c) == 3)
+    return (f"let a := {ev_e(c[1])} in let b := {ev_e(c[2])} in "
+            "ser_bools [ev_eqb a b; ev_eqb b a; ev_neqb a b; ev_neqb b a]")
+
+
+def o_bools(o):
+    return [1] + [int(x) for x in o[1:]]
+
+
+# ---- M5
+def dkind(x):
+    need(x in ("D", "R"))
+    return "KDirect" if x == "D" else "KRatio"
+
+
+def durv(x):
+    need(isinstance(x, list) and len(x) == 2)
+    return f"(mkDur {dkind(x[0])} {z(x[1])})"
+
+
+AOP = {"add": "OAdd", "sub": "OSub", "mul": "OMul", "div": "ODiv"}
+
+
+def aop(x):
+    need(x in AOP)
+    return AOP[x]
+
+
+def t_cmp(c):
+    need(len(c) == 3)
+    return (f"let d := {durv(c[1])} in let r := {qq(c[2])} in "
+            "ser_bools [d_lt d r; d_le d r; d_eq d r; d_ne d r; d_ge d r; d_gt d r]")
+
+
+def t_arith(c):
+    need(len(c) == 4)
+    return f"ser_rdur (arith {aop(c[1])} {durv(c[2])} {qq(c[3])})"
+
+
+def o_arith(o):
+    return [1, {"D": 0, "R": 1}[o[1]], int(o[2])]
+
+
+def upd(u):
+    need(isinstance(u, list))
+    if len(u) == 2 and u[0] == "set":
+        return f"USet {qq(u[1])}"
+    if u == ["read"]:
+        return "URead"
+    need(len(u) == 2)
+    return f"UArith {aop(u[0])} {qq(u[1])}"
+
+
+def t_durhist(c):
+    need(len(c) >= 3)
+    return f"ser_durhist {dkind(c[1])} {qq(c[2])} {lst(upd(u) for u in c[3:])}"
+
+
+def o_durhist(o):
+    out = [1]
+    for x in o[1:]:
+        out += [0, ERR[x[1]]] if isinstance(x, list) else [1, int(x)]
+    return out
+
+
+def pin(x):
+    need(isinstance(x, list) and x)
+    k, n = x[0], len(x)
+    if k == "same" and n == 1:
+        return "PSame"
+    if k == "int" and n == 2:
+        return f"(PInt {z(x[1])})"
+    if k == "float" and n == 2:
+        return f"(PFloat {qq(x[1])})"
+    if k == "frac" and n == 2:
+        return f"(PFrac {qq(x[1])})"
+    if k == "str-int" and n == 2:
+        return f"(PStr (SInt {z(x[1])}))"
+    if k == "str-float" and n == 2:
+        return f"(PStr (SFloat {qq(x[1])}))"
+    if k == "str-frac" and n == 3:
+        return f"(PStr (SFrac {z(x[1])} {z(x[2])}))"
+    if k == "str-list" and n == 1:
+        return "(PStr SList)"
+    if k == "str-junk" and n == 2:
+        return "(PStr SJunk)"
+    if k == "points" and n == 1:
+        return "PPoints"
+    need(k == "other" and n == 2)
+    return "POther"
+
+
+def t_parse(fn):
+    def t(c):
+        need(len(c) == 2)
+        return f"ser_pout ({fn} {pin(c[1])})"
+    return t
+
+
+def o_pout(o):
+    k = o[1]
+    if k == "same":
+        return [1, 0]
+    if k == "flex":
+        return [1, 3]
+    return [1, {"direct": 1, "ratio": 2}[k], int(o[2])]
+
+
+# ---- M6
+def red(x):
+    """(q n d) as printed by the driver -> numerator, denominator of the reduced fraction"""
+    f = Fraction(int(x[1]), int(x[2]))
+    return [f.numerator, f.denominator]
+
+
+def o_zs(o):
+    return [1, len(o) - 1] + [int(x) for x in o[1:]]
+
+
+def o_zss(o):
+    out = [1, len(o) - 1]
+    for l in o[1:]:
+        out += [len(l)] + [int(x) for x in l]
+    return out
+
+
+def o_z(o):
+    return [1, int(o[1])]
+
+
+def t_sss(c):
+    need(len(c) >= 2)
+    return f"ser_qs (scale_sequence_to_sum {lst(qq(x) for x in c[2:])} {qq(c[1])})"
+
+
+def o_qs(o):
+    out = [1, len(o) - 1]
+    for x in o[1:]:
+        out += red(x)
+    return out
+
+
+def t_acc(c):
+    need(len(c) >= 2)
+    return f"ser_zs (accumulate_from_n {zs(c[2:])} {z(c[1])})"
+
+
+def t_cyc(c):
+    return f"ser_zss (cyclic_permutations {zs(c[1:])})"
+
+
+def t_closest(c):
+    need(len(c) >= 2)
+    return f"ser_rnat (find_closest_index {z(c[1])} {zs(c[2:])})"
+
+
+def t_round(c):
+    need(len(c) == 3)
+    return f"ser_z (round_digits {qq(c[1])} {nat(c[2], 40)})"
+
+
+def t_uniq(c):
+    return f"ser_zs (uniqify {zs(c[1:])})"
+
+
+def nest(x):
+    if not isinstance(x, list):
+        return f"(NAtom {z(x)})"
+    need(x and x[0] == "l")
+    return f"(NList {lst(nest(i) for i in x[1:])})"
+
+
+def path(xs):
+    return lst(nat(i) for i in xs)
+
+
+def t_nget(c):
+    need(len(c) >= 2)
+    return f"ser_rnest (nget {path(c[2:])} {nest(c[1])})"
+
+
+def t_nset(c):
+    need(len(c) >= 3)
+    return f"ser_rnest (nset {path(c[3:])} {nest(c[2])} {nest(c[1])})"
+
+
+def t_ndel(c):
+    need(len(c) >= 2)
+    return f"ser_rnest (ndel {path(c[2:])} {nest(c[1])})"
+
+
+def ser_nest(x):
+    if not isinstance(x, list):
+        return [0, int(x)]
+    out = [1, len(x) - 1]
+    for i in x[1:]:
+        out += ser_nest(i)
+    return out
+
+
+def o_nest(o):
+    return [1] + ser_nest(o[1])
+
+
+def t_sums(c):
+    if len(c) == 2:
+        return f"let t := {z(c[1])} in ser_zss (find_sums t (default_numbers t) (default_counts t))"
+    need(len(c) == 4 and isinstance(c[2], list) and isinstance(c[3], list))
+    return f"ser_zss (find_sums {z(c[1])} {zs(c[2])} {lst(nat(i, 12) for i in c[3])})"
+
+
+def t_attr(c):
+    need(len(c) == 4)
+    return f"ser_z (chronon_to_attribute {pairs(c[1])} {z(c[2])} {z(c[3])})"
+
+
+def t_kwarg(c):
+    need(len(c) == 4)
+    return f"ser_okv (dict_to_keyword_argument {pairs(c[1])} {z(c[2])} {z(c[3])})"
+
+
+def o_kwarg(o):
+    return [1, 0] if o[1] == "none" else [1, 1, int(o[1]), int(o[2])]
+
+
+def t_chronon(c):
+    need(len(c) == 3)
+    return f"ser_pairs (dict_to_chronon {pairs(c[1])} {pairs(c[2])})"
+
+
+def o_pairs(o):
+    out = [1, len(o) - 1]
+    for a, b in o[1:]:
+        out += [int(a), int(b)]
+    return out
+
+
+def t_lazy(c):
+    need(len(c) >= 2)
+    return f"ser_lazy (lazy_run Z Z Z.eqb lazy_f {b01(c[1])} None {zs(c[2:])})"
+
+
+def t_lazy2(c):
+    need(len(c) >= 2)
+    ops = []
+    for op in c[2:]:
+        if op == ["del"]:
+            ops.append("None")
+        else:
+            need(isinstance(op, list) and len(op) == 2 and not isinstance(op[0], list))
+            ops.append(f"Some {z(op[1])}")
+    return f"ser_lazy2 {b01(c[1])} {lst(ops)}"
+
+
+def o_lazy2(o):
+    out = [1, len(o) - 1]
+    for x in o[1:]:
+        out += [2] if x == "del" else [1, int(x[0]), int(x[1])]
+    return out
+
+
+# ---- M3: identity trees
+def itree(x):
+    need(isinstance(x, list) and x)
+    if x[0] == "l" and len(x) == 2:
+        return f"(ILeaf {nat(x[1])})"
+    need(x[0] in ("s", "p") and len(x) >= 2)
+    return f"(INode {nat(x[1])} {'IKSeq' if x[0] == 's' else 'IKSim'} {lst(itree(k) for k in x[2:])})"
+
+
+def oz(x):
+    return "None" if x == "none" else f"(Some {z(x)})"
+
+
+def heap(x, dflt, conv):
+    """driver `heap_of`: association list, first entry wins, default for absent identities"""
+    need(isinstance(x, list) and all(isinstance(p, list) and len(p) == 2 and not isinstance(p[0], list) and int(p[0]) >= 0 for p in x))
+    return f"(heap_of {dflt} {lst(f'({nat(i)}, {conv(v)})' for i, v in x)})"
+
+
+def gfun(x):
+    need(isinstance(x, list) and len(x) == 2 and x[0] in ("const", "addc", "mul"))
+    return f"(g_{x[0]} {z(x[1])})"
+
+
+def t_setp(c):
+    need(len(c) == 5)
+    return (f"let t := {itree(c[1])} in "
+            f"ser_setp t (set_parameter {b01(c[2])} {gfun(c[3])} t {heap(c[4], '(None : option Z)', oz)})")
+
+
+def ser_oz(v):
+    return [0] if v == "none" else [1, int(v)]
+
+
+def o_setp(o):
+    out = [1, len(o) - 1]
+    for i, v in o[1:]:
+        out += [int(i)] + ser_oz(v)
+    return out
+
+
+def t_getp(c):
+    need(len(c) == 5)
+    t, h = itree(c[1]), heap(c[4], "(None : option Z)", oz)
+    if b01(c[2]) == "true":
+        return f"ser_ozs (get_parameter_flat {b01(c[3])} {t} {h})"
+    return f"ser_pvals (get_parameter_nested {b01(c[3])} {t} {h})"
+
+
+def ser_pval(x):
+    if not isinstance(x, list):
+        return [0] + ser_oz(x)
+    out = [1, len(x) - 1]
+    for i in x[1:]:
+        out += ser_pval(i)
+    return out
+
+
+def o_getp_for(c):
+    flat = b01(c[2]) == "true"
+
+    def o(obs):
+        out = [1, len(obs) - 1]
+        for x in obs[1:]:
+            out += ser_oz(x) if flat else ser_pval(x)
+        return out
+    return o
+
+
+def t_setdur(c):
+    need(len(c) == 4)
+    return f"let t := {itree(c[1])} in ser_setdur t (set_duration t {z(c[2])} {heap(c[3], '0', z)})"
+
+
+def o_setdur(o):
+    out = [1, int(o[1]), len(o) - 2]
+    for i, v in o[2:]:
+        out += [int(i), int(v)]
+    return out
+
+
+# ---- M3: object graphs
+def gtree(x):
+    need(isinstance(x, list) and x)
+    if x[0] == "l" and len(x) == 4:
+        return f"(GLeaf {nat(x[1])} {nat(x[2])} {nat(x[3])})"
+    need(x[0] in ("s", "p") and len(x) >= 3)
+    return f"(GNode {nat(x[1])} {'GSeq' if x[0] == 's' else 'GSim'} {nat(x[2])} {lst(gtree(k) for k in x[3:])})"
+
+
+def t_copyop(c):
+    need(len(c) == 3 and not isinstance(c[1], list))
+    r = "fst (pcopy t (fresh_above t, []))" if c[1] == "copy" else "fst (dcopy t (fresh_above t))"
+    return f"let t := {gtree(c[2])} in ser_copy t ({r})"
+
+
+def o_copyop(o):
+    need(o[1][0] == "pattern" and o[2][0] == "shared")
+    return [1, len(o[1]) - 1] + [int(x) for x in o[1][1:]] + [len(o[2]) - 1] + [int(x) for x in o[2][1:]]
+
+
+# kind -> (term of the case, serialiser of an `ok` observation)
+KINDS = {
+    "eq": (t_eq, o_bools),
+    "cmp": (t_cmp, o_bools), "arith": (t_arith, o_arith), "durhist": (t_durhist, o_durhist),
+    "parse_d": (t_parse("parse_duration"), o_pout), "parse_t": (t_parse("parse_tempo"), o_pout),
+    "sss": (t_sss, o_qs), "acc": (t_acc, o_zs), "cyc": (t_cyc, o_zss), "closest": (t_closest, o_z), "round": (t_round, o_z),
+    "uniq": (t_uniq, o_zs), "nget": (t_nget, o_nest), "nset": (t_nset, o_nest), "ndel": (t_ndel, o_nest),
+    "sums": (t_sums, o_zss), "attr": (t_attr, o_z), "kwarg": (t_kwarg, o_kwarg), "chronon": (t_chronon, o_pairs),
+    "lazy": (t_lazy, o_pairs), "lazy2": (t_lazy2, o_lazy2),
+    "setp": (t_setp, o_setp), "getp": (t_getp, None), "setdur": (t_setdur, o_setdur),   # getp: o_getp_for(case)
+    "copyop": (t_copyop, o_copyop),
+}
+M1_KINDS = ("split_at", "op")
+M1_IMPORTS = "From MV Require Import Base.Res Model.EventTree Model.TreeOps Model.Ser."
+ALL_IMPORTS = ("From MV Require Import Base.Res Model.EventTree Model.TreeOps Model.Ser Model.Equality Model.Numbers Model.Tools "
+               "Model.IdTree Model.Heap Model.Ser2.")
+
+
+def group_of(case):
+    """sampling group of a case, None = not supported"""
+    k = case[0] if isinstance(case, list) and case and not isinstance(case[0], list) else None
+    if k in M1_KINDS:
+        return "m1"
+    return k if k in KINDS else None
+
+
+def prepare(case):
+    """(Gallina term : list Z, serialiser of the driver's observation) or None"""
+    g = group_of(case)
+    if g is None:
+        return None
+    if g == "m1":
+        e = coq_of_case(case)
+        return None if e is None else (e, ser_obs)
+    # exactly what the driver read: every atom a string
+    c = sx.parse(sx.show(case))
+    tf, of = KINDS[c[0]]
+    try:
+        e = tf(c)
+        if c[0] == "getp":
+            of = o_getp_for(c)
+    except (Skip, ValueError, TypeError, IndexError):
+        return None
+
+    def obs(o):
+        return [0, ERR[o[1]]] if o[0] == "err" else of(o)
+    return e, obs
+
+
+def crosscheck(cases, model_outputs, limit=300, tag="cases"):
+    """returns dict(checked, mismatches[list of (case line, coq, driver)]).
+    `cases` are the cases as sent to the driver.  At most `limit` cases are evaluated; when several case kinds are
+    present every kind gets an equal share (the M1 kinds count as one)."""
+    groups = []
+    for c in cases:
+        g = group_of(c)
+        if g is not None and g not in groups:
+            groups.append(g)
+    if not groups:
+        return {"checked": 0, "mismatches": []}
+    cap = -(-limit // len(groups))
+    count = dict.fromkeys(groups, 0)
     picked = []
+    seen = set()
     for c, m in zip(cases, model_outputs):
-        e = coq_of_case(c)
-        if e is not None and m is not None:
-            picked.append((c, e, m))
-        if len(picked) >= limit:
+        g = group_of(c)
+        if g is None or m is None or count[g] >= cap or m.startswith("(driver-error"):
+            continue
+        if g != "m1":
+            # model_case may map many cases to one driver case: evaluate each distinct one once
+            line = sx.show(c)
+            if line in seen:
+                continue
+            seen.add(line)
+        pr = prepare(c)
+        if pr is not None:
+            picked.append((c, pr[0], m, pr[1]))
+            count[g] += 1
+        if len(picked) >= limit or all(v >= cap for v in count.values()):
             break
     if not picked:
         return {"checked": 0, "mismatches": []}
-    body = ["From Coq Require Import ZArith List.", "From MV Require Import Base.Res Model.EventTree Model.TreeOps Model.Ser.",
+    m1_only = groups == ["m1"]
+    body = ["From Coq Require Import ZArith List." if m1_only else "From Coq Require Import ZArith QArith List.",
+            M1_IMPORTS if m1_only else ALL_IMPORTS,
             "Import ListNotations.", "Open Scope Z_scope.", "Set Printing Width 1000000.", "Set Printing Depth 1000000."]
-    for i, (_, e, _) in enumerate(picked):
+    for i, (_, e, _, _) in enumerate(picked):
         body.append(f"Definition vm_c{i} : list Z := {e}.")
     body.append("Eval vm_compute in [" + "; ".join(f"vm_c{i}" for i in range(len(picked))) + "].")
-    path = os.path.join(COQ, "vmcheck_cases.v")
+    # checks may run side by side: one scratch module per property and process
+    name = "vmcheck_" + re.sub(r"\W", "_", str(tag)) + "_" + str(os.getpid())
+    path = os.path.join(COQ, name + ".v")
     open(path, "w").write("\n".join(body) + "\n")
     try:
-        p = subprocess.run(["timeout", "900", "coqc", "-Q", ".", "MV", "vmcheck_cases.v"], cwd=COQ, stdout=subprocess.PIPE,
+        p = subprocess.run(["timeout", "900", "coqc", "-Q", ".", "MV", name + ".v"], cwd=COQ, stdout=subprocess.PIPE,
                            stderr=subprocess.STDOUT, text=True)
     finally:
         for ext in (".v", ".vo", ".vok", ".vos", ".glob"):
             try:
-                os.remove(os.path.join(COQ, "vmcheck_cases" + ext))
+                os.remove(os.path.join(COQ, name + ext))
             except OSError:
                 pass
         try:
-            os.remove(os.path.join(COQ, ".vmcheck_cases.aux"))
+            os.remove(os.path.join(COQ, "." + name + ".aux"))
         except OSError:
             pass
     if p.returncode != 0:
@@ -119,7 +623,11 @@ def crosscheck(cases, model_outputs, limit=300):
     mism = []
     if len(lists) != len(picked):
         return {"checked": 0, "mismatches": [("result count", str(len(lists)), str(len(picked)))]}
-    for (c, _, mo), l in zip(picked, lists):
-        if ser_obs(sx.parse(mo)) != l:
+    for (c, _, mo, obs), l in zip(picked, lists):
+        try:
+            d = obs(sx.parse(mo))
+        except Exception as ex:   # an observation of an unexpected shape is a disagreement, not a crash
+            d = "unserialisable: " + repr(ex)
+        if d != l:
             mism.append((sx.show(c)[:300], str(l)[:200], mo[:200]))
-    return {"checked": len(picked), "mismatches": mism}
+    return {"checked": len(picked), "mismatches": mism, "per_kind": {g: n for g, n in count.items() if n}}
